@@ -7,6 +7,7 @@ import (
 	"io"
 	"math/rand"
 	"net"
+	"runtime"
 	"sort"
 	"strconv"
 	"strings"
@@ -29,11 +30,13 @@ import (
 //   co/<n> cc/<n> coordinator connection n opened / closed   bo/<n> bc/<n> broker connection n dialled / closed by the client
 //   fq  Fetch request reached the broker
 //   lk/<n> library goroutines still alive at the end   oc/<n> connections still open at the end
+//   to/<c> call c had to return (its context was cancelled, or Close had returned) and was still blocked after the watchdog bound
 // ---------------------------------------------------------------------------------------------------------------
 
 type countedConn struct {
 	net.Conn
 	id      int
+	lag     bool // dialled by Reader.ReadLag (the lag monitor), not by a fetcher or the group loop
 	once    sync.Once
 	sc      *rscenario
 	onClose func()
@@ -41,7 +44,11 @@ type countedConn struct {
 
 func (c *countedConn) Close() error {
 	c.once.Do(func() {
-		c.sc.rec.add("bc/%d", c.id)
+		if c.lag {
+			c.sc.rec.add("lc/%d", c.id)
+		} else {
+			c.sc.rec.add("bc/%d", c.id)
+		}
 		atomic.AddInt32(&c.sc.open, -1)
 		if c.onClose != nil {
 			c.onClose()
@@ -61,6 +68,13 @@ type rcfg struct {
 	faultAt    string // coordinator method at which a fault is injected ("" = none)
 	faultNth   int    // on its n-th call (0 = every call)
 	faultKind  int    // kafka error code, or -1 = the connection breaks / the request times out
+	// plain reader: one ListOffsets request on each of the first offConns connections is answered with error code
+	// offCode — the ((conn-1+offNth) mod 4 + 1)-th (1, 2 = the fetcher's readOffsets; 3, 4 = the offsets Conn.Seek
+	// reads again), so that four connections cover the four placements
+	offNth, offConns int
+	offCode          int16
+	watch            bool          // group paths: WatchPartitionChanges (one more goroutine per generation, polling the coordinator)
+	lagEvery         time.Duration // plain reader: ReadLagInterval (the lag monitor goroutine dials its own connections)
 }
 
 type rscenario struct {
@@ -82,6 +96,7 @@ type rscenario struct {
 	calls    map[string]int
 	hbs      int
 	holdJoin chan struct{}
+	offCalls map[int]int
 	member   string
 	lastMsg  kafka.Message
 	gotMsg   bool
@@ -103,8 +118,17 @@ func (s *rscenario) dial(ctx context.Context, network, addr string) (net.Conn, e
 		c, id = s.br.Dial()
 	}
 	atomic.AddInt32(&s.open, 1)
-	s.rec.add("bo/%d", id)
-	return &countedConn{Conn: c, id: id, sc: s}, nil
+	lag := false
+	if s.cfg.lagEvery > 0 {
+		buf := make([]byte, 8<<10)
+		lag = strings.Contains(string(buf[:runtime.Stack(buf, false)]), ").ReadLag")
+	}
+	if lag {
+		s.rec.add("lo/%d", id) // Close does not wait for the lag monitor: its connections are censused, not ordered
+	} else {
+		s.rec.add("bo/%d", id)
+	}
+	return &countedConn{Conn: c, id: id, sc: s, lag: lag}, nil
 }
 
 // coordinator script (through the verif export hook VerifSetGroupHandler)
@@ -237,6 +261,13 @@ func (s *rscenario) coord(c kafka.VerifCoordCall) kafka.VerifCoordReply {
 }
 
 func newRScenario(cfg rcfg) *rscenario {
+	if cfg.mode != "plain" && curWatch {
+		cfg.watch = true
+	}
+	backoff := 10 * time.Millisecond
+	if cfg.mode != "plain" && curLongBackoff {
+		backoff = 20 * time.Second // only Close can end the back-off after a failed join
+	}
 	s := &rscenario{cfg: cfg, rec: &recorder{}, nextC: 1, done: map[int]chan struct{}{}, cancel: map[int]context.CancelFunc{}}
 	var set []byte
 	for i := 0; i < cfg.nmsgs; i++ {
@@ -244,6 +275,18 @@ func newRScenario(cfg rcfg) *rscenario {
 	}
 	s.br = &Broker{FetchMax: 2, Topic: "t",
 		OnOffset: func(conn int, ts int64) (int64, int16) {
+			if cfg.offNth > 0 && conn <= cfg.offConns {
+				s.mu.Lock()
+				if s.offCalls == nil {
+					s.offCalls = map[int]int{}
+				}
+				s.offCalls[conn]++
+				n := s.offCalls[conn]
+				s.mu.Unlock()
+				if n == (conn-1+cfg.offNth)%4+1 { // each of the four placements on one of the first four connections
+					return 0, cfg.offCode
+				}
+			}
 			if ts == -2 {
 				return 0, 0
 			}
@@ -277,9 +320,17 @@ func newRScenario(cfg rcfg) *rscenario {
 	}
 	switch cfg.mode {
 	case "plain":
+		lagEvery := time.Duration(-1)
+		if cfg.lagEvery > 0 {
+			lagEvery = cfg.lagEvery
+		}
+		rbMin, rbMax := time.Millisecond, 3*time.Millisecond
+		if curLongBackoff && cfg.broker != "ok" {
+			rbMin, rbMax = 20*time.Second, 20*time.Second // only the cancellation by Close can end the fetcher's back-off sleep
+		}
 		s.r = kafka.NewReader(kafka.ReaderConfig{Brokers: []string{"fake:9092"}, Topic: "t", Partition: 0, Dialer: dialer,
 			MinBytes: 1, MaxBytes: 1 << 20, MaxWait: 40 * time.Millisecond, ReadBatchTimeout: 300 * time.Millisecond,
-			ReadBackoffMin: time.Millisecond, ReadBackoffMax: 3 * time.Millisecond, MaxAttempts: 2, ReadLagInterval: -1})
+			ReadBackoffMin: rbMin, ReadBackoffMax: rbMax, MaxAttempts: 2, ReadLagInterval: lagEvery})
 	case "group":
 		if cfg.coordReal {
 			s.gb = &gbroker{s: s}
@@ -294,7 +345,8 @@ func newRScenario(cfg rcfg) *rscenario {
 			MinBytes: 1, MaxBytes: 1 << 20, MaxWait: 40 * time.Millisecond, ReadBatchTimeout: 300 * time.Millisecond,
 			ReadBackoffMin: time.Millisecond, ReadBackoffMax: 3 * time.Millisecond, MaxAttempts: 2, ReadLagInterval: -1,
 			HeartbeatInterval: 15 * time.Millisecond, SessionTimeout: 300 * time.Millisecond, RebalanceTimeout: 300 * time.Millisecond,
-			JoinGroupBackoff: 10 * time.Millisecond, CommitInterval: ci, StartOffset: kafka.FirstOffset})
+			JoinGroupBackoff: backoff, CommitInterval: ci, StartOffset: kafka.FirstOffset,
+			WatchPartitionChanges: cfg.watch, PartitionWatchInterval: 7 * time.Millisecond})
 		kafka.VerifSetGroupHandler(nil)
 	case "cg":
 		if cfg.coordReal {
@@ -304,7 +356,8 @@ func newRScenario(cfg rcfg) *rscenario {
 		}
 		cg, err := kafka.NewConsumerGroup(kafka.ConsumerGroupConfig{ID: "g", Brokers: []string{"fake:9092"}, Topics: []string{"t"}, Dialer: dialer,
 			HeartbeatInterval: 15 * time.Millisecond, SessionTimeout: 300 * time.Millisecond, RebalanceTimeout: 300 * time.Millisecond,
-			JoinGroupBackoff: 10 * time.Millisecond, Timeout: 150 * time.Millisecond})
+			JoinGroupBackoff: backoff, Timeout: 150 * time.Millisecond,
+			WatchPartitionChanges: cfg.watch, PartitionWatchInterval: 7 * time.Millisecond})
 		kafka.VerifSetGroupHandler(nil)
 		if err != nil {
 			panic(err)
@@ -400,6 +453,10 @@ func (s *rscenario) wait(c int, d time.Duration) bool {
 	case <-s.done[c]:
 		return true
 	case <-time.After(d):
+		if d >= watchdog() {
+			noteStuck()            // waited the full watchdog bound: the call is blocked; later scenarios use the short bounds
+			s.rec.add("to/%d", c) // every wait with that bound is for a call that has to return (cancelled, or after Close)
+		}
 		return false
 	}
 }
@@ -490,15 +547,34 @@ func (s *rscenario) finish(base int, t0 time.Time) (string, string) {
 	sort.Ints(pending)
 	leak, conns := "-", "-"
 	if closeState == "ret" {
+		// a second Close has nothing left to do: it returns (no panic, no wait, nothing sent)
+		again := make(chan struct{})
+		go func() {
+			if s.r != nil {
+				s.r.Close()
+			} else {
+				s.cg.Close()
+			}
+			close(again)
+		}()
+		select {
+		case <-again:
+		case <-time.After(watchdog()):
+			noteStuck()
+			s.rec.add("to/0")
+		}
 		// quiet period: anything sent after Close returned would be journalled now
 		time.Sleep(60 * time.Millisecond)
-		n := settle(base, time.Second)
+		n := settle(base, censusBound())
 		s.rec.add("lk/%d", n)
 		leak = strconv.Itoa(n)
 		oc := int(atomic.LoadInt32(&s.open))
-		for i := 0; i < 200 && oc != 0; i++ {
+		for i := 0; i < censusSteps() && oc != 0; i++ {
 			time.Sleep(2 * time.Millisecond)
 			oc = int(atomic.LoadInt32(&s.open))
+		}
+		if oc != 0 {
+			noteStuck()
 		}
 		s.rec.add("oc/%d", oc)
 		conns = strconv.Itoa(oc)
@@ -553,6 +629,26 @@ func readerScenario(kind int, r *rand.Rand) (string, string) {
 		time.Sleep(time.Duration(5+r.Intn(20)) * time.Millisecond)
 		s.closeBegin()
 		<-waitOr(s.closed)
+		return s.finish(base, t0)
+	case 15: // plain reader: reading the offsets fails during the fetcher's initialize (readOffsets or Seek) on the first connections
+		s := newRScenario(rcfg{mode: "plain", broker: "ok", nmsgs: 2, offNth: 1 + r.Intn(4), offConns: 4,
+			offCode: []int16{6, 5, 7, 3}[r.Intn(4)]})
+		c := s.call("fetch")
+		s.wait(c, watchdog())
+		jitter()
+		s.closeBegin()
+		<-waitOr(s.closed)
+		c2 := s.call("fetch")
+		s.wait(c2, watchdog())
+		return s.finish(base, t0)
+	case 16: // plain reader with the lag monitor running (ReadLagInterval): its goroutine and connections end with Close
+		s := newRScenario(rcfg{mode: "plain", broker: "ok", nmsgs: r.Intn(3), lagEvery: time.Duration(8+r.Intn(20)) * time.Millisecond,
+			offNth: r.Intn(3), offConns: 3, offCode: 6}) // sometimes a lag probe (or the fetcher) meets a failing ListOffsets
+		c := s.call("fetch")
+		time.Sleep(time.Duration(20+r.Intn(60)) * time.Millisecond)
+		s.closeBegin()
+		<-waitOr(s.closed)
+		s.wait(c, watchdog())
 		return s.finish(base, t0)
 	case 3: // plain reader, messages delivered and some still buffered when Close runs
 		s := newRScenario(rcfg{mode: "plain", broker: "ok", nmsgs: 3 + r.Intn(3)})
@@ -630,7 +726,7 @@ func readerScenario(kind int, r *rand.Rand) (string, string) {
 		jitter()
 		var cm int
 		if s.cfg.nmsgs > 0 {
-			s.wait(c, watchdog())
+			s.wait(c, 400*time.Millisecond) // a probe: after a failed join (back-off) or a fault no message may ever arrive
 			cm = s.call("commit")
 			if r.Intn(2) == 0 {
 				time.Sleep(time.Millisecond)
@@ -702,6 +798,13 @@ func pickStepReal(r *rand.Rand) string {
 	return []string{"findCoordinator", "joinGroup", "syncGroup", "offsetFetch", "heartbeat", "leaveGroup", "leaveGroup"}[r.Intn(7)]
 }
 
+// scenarios with an even number run their group paths with the partition watcher (17 kinds: each kind gets both)
+var curWatch bool
+
+// scenarios with an odd number run their group paths with JoinGroupBackoff 20 s, and a plain reader whose broker is
+// silent or unreachable with ReadBackoffMin = ReadBackoffMax = 20 s
+var curLongBackoff bool
+
 func waitOr(ch chan struct{}) chan struct{} {
 	out := make(chan struct{})
 	go func() {
@@ -721,13 +824,15 @@ func readerPart(seed int64) {
 	}
 	n := 0
 	for rep := 0; rep < reps; rep++ {
-		for kind := 0; kind < 15; kind++ {
+		for kind := 0; kind < 17; kind++ {
 			n++
 			if tooManyStuck() {
 				return
 			}
 			if only("rclose", n) || only("ftrace", n) {
 				kafka.VerifStart()
+				curWatch = n%2 == 0
+				curLongBackoff = n%2 == 1
 				op, impl := readerScenario(kind, scRand(seed, 2, n))
 				evs := kafka.VerifStop()
 				emitSc(n, op, impl)
@@ -744,21 +849,26 @@ func readerPart(seed int64) {
 // Model/FetcherLife.lean, one token per event, tagged with the fetcher: T<f>:<attempt> top, C<f> cancel, I<f>:<1|0> init,
 // J<f> iter, R<f>:<class> read, O<f>:<1|0> offsets (after an out-of-range read only), M<f> msg, E<f> sendErr.
 func fetcherTrace(evs []kafka.VerifEvent) (string, string) {
+	// fetchers are told apart by the address of their *reader; the allocator may hand the address of a fetcher that has
+	// exited to a later one (several generations in one scenario): a run that starts (RL.Top, attempt 0) at the address of
+	// an exited fetcher is a new fetcher
 	ids := map[string]int{}
-	id := func(a string) int {
-		if _, ok := ids[a]; !ok {
-			ids[a] = len(ids) + 1
+	nids := 0
+	exited := map[int]bool{}
+	id := func(a string, fresh bool) int {
+		if f, ok := ids[a]; !ok || (fresh && exited[f]) {
+			nids++
+			ids[a] = nids
 		}
 		return ids[a]
 	}
 	lastRead := map[int]string{}
-	exited := map[int]bool{}
 	var toks []string
 	for _, e := range evs {
 		if !strings.HasPrefix(e.Kind, "RL.") || len(e.Args) == 0 {
 			continue
 		}
-		f := id(e.Args[0])
+		f := id(e.Args[0], e.Kind == "RL.Top" && len(e.Args) > 2 && e.Args[2] == "0")
 		switch e.Kind {
 		case "RL.Top":
 			toks = append(toks, fmt.Sprintf("T%d:%s", f, e.Args[2]))
@@ -814,5 +924,5 @@ func fetcherTrace(evs []kafka.VerifEvent) (string, string) {
 	if len(toks) > 0 {
 		tr = strings.Join(toks, ";")
 	}
-	return "ftrace n=" + strconv.Itoa(len(ids)) + " " + tr, fmt.Sprintf("live=%d", len(ids)-len(exited))
+	return "ftrace n=" + strconv.Itoa(nids) + " " + tr, fmt.Sprintf("live=%d", nids-len(exited))
 }
